@@ -8,7 +8,7 @@ d, x = sys.argv[1].rstrip('/'), sys.argv[2]
 sd = os.path.join(d, x)
 meta = json.load(open(os.path.join(sd, 'meta.json')))
 prop = meta['property']
-wt = '/tmp/vw/confirm-%s-%s' % (prop, x)
+wt = '/tmp/vw/confirm-%s-%s%s' % (prop, 'r2' if d.endswith('r2.out') else '', x)
 env = dict(os.environ, CARGO_NET_OFFLINE='true', CARGO_TARGET_DIR='/tmp/vw/confirm-target')
 def sh(cmd, cwd=wt, timeout=5400):
     p = subprocess.run(cmd, shell=True, cwd=cwd, env=env, stdout=subprocess.PIPE, stderr=subprocess.STDOUT, text=True, timeout=timeout)
@@ -57,7 +57,8 @@ except Exception as e:
     rec['error'] = str(e)[:500]
 finally:
     subprocess.run(['git', '-C', '/repo', 'worktree', 'remove', '--force', wt], capture_output=True)
-out_dir = '/verif/seeded/%s-%s' % (prop, x)
+rnd = 'r2' if d.endswith('r2.out') else ''
+out_dir = '/verif/seeded/%s-%s%s' % (prop, rnd, x)
 if rec['confirmed']:
     os.makedirs(out_dir, exist_ok=True)
     shutil.copy(os.path.join(sd, 'patch.diff'), out_dir)
